@@ -292,6 +292,26 @@ Definition obs_out (o : adts_out) : sx :=
   | OutAssign a => SL (SZ 0 :: s_asc a)
   end.
 
+(* case 12: a long stream given compactly: frames (id pa profile sfi ch len fill) with generated
+   payloads, [cut] bytes removed from the end, [extra] appended; per decoded frame only
+   (|raw|, adler32 raw, config) is observed *)
+Definition p_cframe (s : sx) : option (adts_hdr * bytes) :=
+  match s with
+  | SL [SZ id; SZ pa; SZ profile; SZ sfi; SZ ch; SZ len; SZ fill] =>
+      Some (mk_hdr (Z.to_N id) 0 (Z.to_N pa) (Z.to_N profile) (Z.to_N sfi) 0 (Z.to_N ch) 0 0 0 0 2047 0 4660,
+            gen_payload (Z.to_nat len) 0 (Z.to_N fill))
+  | _ => None
+  end.
+Fixpoint p_cframes (l : list sx) : option (list (adts_hdr * bytes)) :=
+  match l with
+  | [] => Some []
+  | s :: t => match p_cframe s, p_cframes t with
+              | Some f, Some fs => Some (f :: fs)
+              | _, _ => None
+              end
+  end.
+Definition obs_frame_sum (f : bytes * asc) : sx := SL (sN (lenN (fst f)) :: sN (adler32 (fst f)) :: s_asc (snd f)).
+
 (* blocks of case 10: the i-th block gets the crc_check value 0xC300 + i *)
 Fixpoint p_blocks (l : list sx) (i : N) : option (list (bytes * N)) :=
   match l with
@@ -350,6 +370,18 @@ Definition run_c11 (c : sx) : sx :=
           | Err e => SL [set; s_err e]
           | Panic _ => s_panic
           end
+      end
+  | SL [SZ 12; SL frames; SZ cut; SB extra] =>
+      match p_cframes frames with
+      | Some fs =>
+          let whole := flat_map (fun f => spec_adts_frame (fst f) (snd f)) fs in
+          let data := firstn (length whole - Z.to_nat cut) whole ++ extra in
+          match adts_stream (S (length data)) asc0 data [] with
+          | (out, a, Ok _) => SL [sN (lenN data); SL (map obs_frame_sum out); SL [SZ 0]]
+          | (out, a, Err e) => SL [sN (lenN data); SL (map obs_frame_sum out); SL (SZ 1 :: sN e :: s_asc a)]
+          | (out, a, Panic _) => SL [sN (lenN data); SL (map obs_frame_sum out); s_panic]
+          end
+      | None => bad_case
       end
   | SL [SZ 11; SL ops] =>
       match p_adts_ops ops with
